@@ -83,6 +83,25 @@ func (w *World) tagOf(t types.Type) int {
 	return id
 }
 
+// tagOfName: a tag for an opaque dynamic type known only by name.
+func (w *World) tagOfName(name string) int {
+	w.mu.Lock()
+	defer w.mu.Unlock()
+	if id, ok := w.typeTags[name]; ok {
+		return id
+	}
+	id := stableHash(name, 1<<30)
+	for {
+		if _, used := w.tagTypes[id]; !used {
+			break
+		}
+		id++
+	}
+	w.typeTags[name] = id
+	w.tagTypes[id] = types.Typ[types.Invalid]
+	return id
+}
+
 func (w *World) tagType(id int) types.Type {
 	w.mu.Lock()
 	defer w.mu.Unlock()
